@@ -484,17 +484,24 @@ def run_app(sc, schedule=None, seed=None, line_preempt=None):
                     return None
 
                 def local(frame, event, arg):
-                    if event == "line" and not trig["fired"]:
+                    if event == "line" and not trig["fired"] and (lp_func is None or frame.f_code.co_name == lp_func) \
+                            and (lp_to == "user" or any(t.name == lp_to and t is not sched.cur() for t in sched.runnable())):
                         trig["n"] += 1
                         if trig["n"] == lp:
                             trig["fired"] = True
                             trig["go"] = True
-                            sched.ev("preempt", func=frame.f_code.co_name, file=_os.path.basename(frame.f_code.co_filename))
-                            sched.schedule = ["user"]
+                            sched.ev("preempt", func=frame.f_code.co_name, file=_os.path.basename(frame.f_code.co_filename),
+                                     line=frame.f_lineno, to=lp_to)
+                            sched.schedule = [lp_to]
                             sched.yield_("preempt")
                     return local
                 return local
             sched.tracer = tracer
+            # line_preempt_to: the thread that runs at the preemption point ("user": a thread calling close(), default;
+            # "ping": the library's own ping thread, if it is runnable at that instant).  lp_func: count only the lines of
+            # functions with this name.
+            lp_to = sc.get("line_preempt_to", "user")
+            lp_func = sc.get("lp_func")
 
             def watchdog():
                 sched.block(lambda: False, sc["horizon"] / 1000.0, what="horizon")
@@ -508,7 +515,8 @@ def run_app(sc, schedule=None, seed=None, line_preempt=None):
                     sched.ev("user_close_ret")
 
             def main_lp():
-                sched.spawn(user_lp, "user")
+                if lp_to == "user":
+                    sched.spawn(user_lp, "user")
                 if sc.get("horizon"):
                     sched.spawn(watchdog, "watchdog")
                 main()
